@@ -1,7 +1,7 @@
 (* Proofs/WsFilterProofs.v — whitespace_filter + drop-empty against the adjacency specification
    (for every document, no well-formedness needed), the D6 witness for the pinned comment rule,
    rendering of the specified token list, and validate. *)
-From TeraV Require Import Model.Value Model.Utf8 Model.Lexer Spec.Doc Model.LexerDoc Proofs.Utf8Proofs.
+From TeraV Require Import Model.Value Model.Utf8Lex Model.Lexer Spec.Doc Model.LexerDoc Proofs.Utf8Proofs.
 Local Open Scope N_scope.
 
 (* ---------------------------------------------------------------- trimming algebra, conditional *)
